@@ -507,14 +507,17 @@ package updog
 //@   ensures [C15,C16] file_released: !flocked(fs, idx.filename)
 //@   ensures [C16] other_files_untouched: forall q string :: q != idx.filename ==> (fexists(fs, q) <==> fexists(old(fs), q)) && fcontent(fs, q) == fcontent(old(fs), q)
 
-//@ func [C15,C16] OpenIndex(file, opts) (idx, err)
+//@ func [C15,C16,C17,C01] OpenIndex(file, opts) (idx, err)
 //@   requires !flocked(fs, file)
 //@   requires forall j idx(opts) :: opts[j] != nil
 //@   modifies heap ghost.fs; heap bbolt.DB.closed
 //@   ensures [C15] missing_file_is_error_and_not_created: !fexists(old(fs), file) ==> err != nil && fs == old(fs)
 //@   ensures [C15] released_on_error: err != nil ==> idx == nil && !flocked(fs, file)
 //@   ensures [C16] file_not_modified: fexists(old(fs), file) ==> fexists(fs, file) && fcontent(fs, file) == fcontent(old(fs), file)
-//@   ensures [C15] err == nil ==> idx != nil && idx.db != nil && !idx.db.closed && idx.db.path == file && flocked(fs, file)
+//@   ensures [C15] err == nil ==> idx != nil && idx.db != nil && !idx.db.closed && idx.db.path == file && flocked(fs, file) && fresh(idx) && fresh(idx.db) && !idx.db.wopen
+//@   ensures [C15,C17] other_files_and_databases_untouched: (forall q string :: q != file ==> (flocked(fs, q) <==> flocked(old(fs), q)))
+//@        && (forall x *bbolt.DB :: (x in old($alloc)) ==> x.closed == old(x.closed))
+//@   ensures [C01,C03,C14,C17] index_invariant_established: err == nil && FileConsistent(idx.db.committed) ==> IdxInv(idx) && idx.mtx.held == 0
 
 // ---- AddRow (C05, C18)
 //@ guarded [C18] IndexWriter.schema,values,nextRowID by mtx exclusive
